@@ -117,3 +117,42 @@ package rapid
 //@   ensures drawn == old(drawn) + 1
 //@   panics invalidData: drawn == old(drawn)
 //@   modifies drawn
+
+// ---------------------------------------------------------------------------------------------
+// floats.go
+//
+// Spec functions: the number of fractional significand bits for exponent e, the IEEE bit pattern
+// composed from (exponent, integer significand part, fractional significand part), and the
+// sign-cleared bit pattern of a float. Non-negative non-NaN floats are ordered like their bit
+// patterns, so bounds on composed bits are bounds on values.
+
+//@ define fracbits(e, sb) = ite(e <= 0, sb, ite(uint64(e) < sb, sb - uint64(e), 0))
+//@ define compose64(e, si, sf) = ((uint64(e) + 1023) << 52) | (si << fracbits(e, uint64(52))) | sf
+//@ define compose32(e, si, sf) = ((uint32(e) + 127) << 23) | (uint32(si) << fracbits(e, uint64(23))) | uint32(sf)
+//@ define ub64(f) = f64bits(f) & 0x7fffffffffffffff
+//@ define ub32(f) = f32bits(f) & 0x7fffffff
+//@ define f64val(sign, e, si, sf) = ite(sign, -f64frombits(compose64(e, si, sf)), f64frombits(compose64(e, si, sf)))
+//@ define f32val(sign, e, si, sf) = ite(sign, -f32frombits(compose32(e, si, sf)), f32frombits(compose32(e, si, sf)))
+//@ define exact32(f) = float64(float32(f)) == f
+
+//@ func genUfloatRange
+//@   requires [C03] min >= 0 && min <= max
+//@   requires [C03] signifBits == 52 || signifBits == 23
+//@   requires [C03] implies(signifBits == 23, exact32(min) && exact32(max))
+//@   ensures [C03] implies(signifBits == 52, ub64(min) <= compose64(result0, result1, result2) && compose64(result0, result1, result2) <= ub64(max))
+//@   ensures [C03] implies(signifBits == 23, ub32(float32(min)) <= compose32(result0, result1, result2) && compose32(result0, result1, result2) <= ub32(float32(max)))
+//@   ensures drawn > old(drawn)
+//@   panics invalidData: drawn >= old(drawn)
+//@   modifies drawn
+//@   loop 0 invariant [C03] sfMin <= sf && sf <= sfMax
+//@   loop 0 decreases uint(maxR) - uint(r) - i
+
+//@ func genFloatRange
+//@   requires [C03] min <= max
+//@   requires [C03] signifBits == 52 || signifBits == 23
+//@   requires [C03] implies(signifBits == 23, exact32(min) && exact32(max))
+//@   ensures [C03] implies(signifBits == 52, min <= f64val(result0, result1, result2, result3) && f64val(result0, result1, result2, result3) <= max)
+//@   ensures [C03] implies(signifBits == 23, min <= float64(f32val(result0, result1, result2, result3)) && float64(f32val(result0, result1, result2, result3)) <= max)
+//@   ensures drawn > old(drawn)
+//@   panics invalidData: drawn >= old(drawn)
+//@   modifies drawn
